@@ -107,6 +107,12 @@ fn scalar_by_type<'tcx>(tcx: TyCtxt<'tcx>, t: Ty<'tcx>, bits: u128, size: u64) -
             }
             J::Null
         }
+        ty::Adt(def, args) if def.is_struct() && def.non_enum_variant().fields.len() == 1 => {
+            // a newtype constant evaluated to a bare scalar (e.g. `const X: Module = Module(9)`)
+            let f = def.non_enum_variant().fields.iter().next().unwrap();
+            let inner = scalar_by_type(tcx, f.ty(tcx, args), bits, size);
+            J::obj().set("struct", J::Arr(vec![inner]))
+        }
         _ => J::Null,
     }
 }
